@@ -139,7 +139,8 @@ def rule_r2(ctx, rid="C12.R2"):
         q = [(t, pol) for (t, pol) in guards_of(g, n) if any(_is_total(x) for x in ast.walk(t))]
         Qs.append((f, n, q))
     if not Ps:
-        raise AnalysisError("no watermark wait predicate found")
+        ctx.r.violation(rid, "producer-never-waits", "no wait loop compares the pending output with the high watermark: a fast producer is never paused and the output buffer grows without bound", "src/waitress/channel.py")
+        return
     if not Qs:
         ctx.r.violation(rid, "no-consumer-notify", "the flush path never notifies the output condition", "src/waitress/channel.py")
         return
